@@ -5,12 +5,15 @@ import (
 	"context"
 	"encoding/json"
 	"fmt"
+	"github.com/thushan/olla/internal/adapter/registry"
+	"github.com/thushan/olla/internal/adapter/unifier"
 	"math"
 	"math/rand"
 	"net/http"
 	"net/http/httptest"
 	"os"
 	"path/filepath"
+	"runtime"
 	"strings"
 	"sync/atomic"
 	"testing"
@@ -245,7 +248,7 @@ var slowestLen int
 func TestC20(t *testing.T) {
 	world.Quiet()
 	run := rep.New("C20", "exploration",
-		"Part A: seeded generative inputs (corpus of each provider's real listing / metrics / completion / SSE shapes, 14 structure-aware and byte-level mutators, 1-4 mutations each) fed to every shipped profile's ParseModelsResponse, metrics ExtractMetrics/ExtractFromChunk per provider, anthropic TransformResponse and TransformStreamingResponse (arbitrary read cuts); oracle: no panic, returns within the watchdog, parsed entries non-nil with non-empty names, extracted numbers finite. Part B: hostile bodies through the running stack as health answers, model listings, completions, backend error bodies and stream chunks on proxy / passthrough / translated routes (stream on/off), with a concurrent liveness probe and the endpoint's catalogue compared before/after. distinct = distinct (target, input hash) / (route, body class)")
+		"Part A: seeded generative inputs (corpus of each provider's real listing / metrics / completion / SSE shapes, 14 structure-aware and byte-level mutators, 1-4 mutations each) fed to every shipped profile's ParseModelsResponse, a field-state generator of listings (every known field of every provider's listing shape independently absent / typical / zero / null / wrong type / hostile) driven through parse -> unification -> registration in a real unified registry, metrics ExtractMetrics/ExtractFromChunk per provider, anthropic TransformResponse and TransformStreamingResponse (arbitrary read cuts); oracle: no panic, returns within the watchdog, parsed entries non-nil with non-empty names, extracted numbers finite. Part B: hostile bodies through the running stack as health answers, model listings, completions, backend error bodies and stream chunks on proxy / passthrough / translated routes (stream on/off), with a concurrent liveness probe and the endpoint's catalogue compared before/after. distinct = distinct (target, input hash) / (route, body class)")
 	run.Assume("panics on the calling goroutine are caught by recover(); a crash on another goroutine or a fatal error kills the test binary and is reported by the driver with the last input written to disk")
 	seed := rep.Seed()
 	wd := filepath.Join(rep.VerifDir(), ".work", "C20")
@@ -377,6 +380,54 @@ func partA(run *rep.Run, seed int64) {
 			run.Sample(map[string]any{"target": target, "input": string(trunc(in))})
 		}
 	}
+	// 1b. the whole listing pipeline on structure-generated listings: parse, then what discovery
+	// does with the result - unification (called directly, so that a panic is caught here) and,
+	// for a sample, registration in a real unified registry whose unification runs on a
+	// background goroutine (a panic there kills this process; the driver reports it with the
+	// input that is on disk)
+	uni := unifier.NewDefaultUnifier()
+	reg := registry.NewUnifiedMemoryModelRegistry(world.Logger(), nil, nil, nil)
+	for i := 0; i < per; i++ {
+		var in []byte
+		if rng.Intn(10) == 0 {
+			in = mutate(rng, genListing(rng), listingSeeds)
+		} else {
+			in = genListing(rng)
+		}
+		p := profiles[rng.Intn(len(profiles))]
+		target := "ListingPipeline/" + p.GetName()
+		note(target, in)
+		ep := &domain.Endpoint{Name: "pipe-" + p.GetName(), URLString: "http://10.20.0.1:11434", Type: p.GetName()}
+		guard(run, target, in, func() {
+			ms, err := p.ParseModelsResponse(in)
+			if err != nil {
+				run.Count("pipeline_listing_rejected", 1)
+				return
+			}
+			run.Count("pipeline_listing_parsed", 1)
+			for _, m := range ms {
+				if m == nil || m.Name == "" {
+					run.Violation("C20/listing/nil-or-nameless-entry/"+p.GetName(), "parser returned a nil or nameless model entry", map[string]any{"input": string(trunc(in))})
+					return
+				}
+			}
+			if _, err := uni.UnifyModels(ctx, ms, ep); err != nil {
+				run.Count("pipeline_unify_error", 1)
+			}
+			if i%20 == 0 {
+				if err := reg.RegisterModelsWithEndpoint(ctx, ep, ms); err == nil {
+					for k := 0; asyncPending() && k < 5000; k++ {
+						time.Sleep(time.Millisecond)
+					}
+					_, _ = reg.GetUnifiedModels(ctx)
+					run.Count("pipeline_registered_and_unified", 1)
+				}
+			}
+		})
+		if i == 1 {
+			run.Sample(map[string]any{"target": target, "input": string(trunc(in))})
+		}
+	}
 	// 2. metrics extraction
 	for i := 0; i < per; i++ {
 		in := mutate(rng, []byte(metricsSeeds[rng.Intn(len(metricsSeeds))]), metricsSeeds)
@@ -461,6 +512,18 @@ func partA(run *rep.Run, seed int64) {
 	}
 }
 
+// asyncPending: a background unification started by the unified registry is still running.
+func asyncPending() bool {
+	buf := make([]byte, 1<<20)
+	for {
+		n := runtime.Stack(buf, true)
+		if n < len(buf) {
+			return bytes.Contains(buf[:n], []byte("created by github.com/thushan/olla/internal/adapter/registry.(*UnifiedMemoryModelRegistry).RegisterModels"))
+		}
+		buf = make([]byte, 2*len(buf))
+	}
+}
+
 func trunc(b []byte) []byte {
 	if len(b) > 600 {
 		return b[:600]
@@ -541,7 +604,7 @@ func partB(run *rep.Run, seed int64) {
 		good := backend.NewStd("good", []string{"mgood"}, llmresp.Handler("good"))
 		good.KeepBodies = true
 		badN := backend.NewStd("bad-native", []string{"mbadn", "keep1", "keep2"}, nil) // ollama: passthrough
-		badT := backend.NewStd("bad-nonnative", []string{"mbadt"}, nil)             // sglang: translated
+		badT := backend.NewStd("bad-nonnative", []string{"mbadt"}, nil)                // sglang: translated
 		backs := []*backend.Std{good, badN, badT}
 		w, err := world.Start(world.Spec{Engine: eng, Balancer: "priority", Endpoints: []world.Endpoint{
 			{Name: "good", URL: good.URL(), Type: "ollama", Priority: 100},
